@@ -120,4 +120,41 @@ fn main() {
         fjall::verif::pause::set(None);
         if finished { t.join().unwrap(); let _ = std::fs::remove_dir_all(dir); }
     }
+    // F12: version marker absent on an existing database whose first journal was already reclaimed
+    {
+        let dir = std::path::PathBuf::from("/dev/shm/verif-scratch-f12");
+        let _ = std::fs::remove_dir_all(&dir);
+        {
+            let db = fjall::Database::builder(&dir).worker_threads_unchecked(0).open().unwrap();
+            let a = db.keyspace("a", KeyspaceCreateOptions::default).unwrap();
+            a.insert("k", "v").unwrap();
+            fjall::verif::verif_rotate_journal(&db).unwrap();
+            a.rotate_memtable().unwrap();
+            while fjall::verif::queued_worker_messages(&db) > 0 { let _ = fjall::verif::verif_worker_step(&db); }
+            fjall::verif::verif_journal_maintenance(&db).unwrap();
+        }
+        let listing = |d: &std::path::Path| { let mut v: Vec<String> = std::fs::read_dir(d).unwrap().map(|e| e.unwrap().file_name().to_string_lossy().to_string()).collect(); v.sort(); v };
+        std::fs::remove_file(dir.join("version")).unwrap();
+        let before = listing(&dir);
+        let r = fjall::Database::builder(&dir).worker_threads_unchecked(0).open();
+        let after = listing(&dir);
+        println!("F12: marker absent: open -> {}; directory before {:?} after {:?}", match &r { Ok(_) => "Ok".to_string(), Err(e) => format!("Err({e:?})") }, before, after);
+        drop(r); let _ = std::fs::remove_dir_all(dir);
+    }
+    // F16: a deleted keyspace's folder outlives its last handle while a sealed journal's watermarks hold a clone
+    {
+        let dir = std::path::PathBuf::from("/dev/shm/verif-scratch-f16");
+        let _ = std::fs::remove_dir_all(&dir);
+        let db = fjall::Database::builder(&dir).worker_threads_unchecked(0).open().unwrap();
+        let a = db.keyspace("a", KeyspaceCreateOptions::default).unwrap();
+        let b = db.keyspace("b", KeyspaceCreateOptions::default).unwrap();
+        a.insert("k", "v").unwrap();
+        b.insert("k", "v").unwrap();
+        fjall::verif::verif_rotate_journal(&db).unwrap(); // the sealed journal's watermarks name a and b
+        let path = dir.join("keyspaces").join(a.id().to_string());
+        db.delete_keyspace(a).unwrap(); // moves the only user handle in
+        while fjall::verif::queued_worker_messages(&db) > 0 { let _ = fjall::verif::verif_worker_step(&db); }
+        println!("F16: folder of the deleted keyspace still exists after its last handle was dropped = {}", path.exists());
+        drop(b); drop(db); let _ = std::fs::remove_dir_all(dir);
+    }
 }
